@@ -7,7 +7,7 @@ from vlib.core import rng, REPO
 PROPERTY = "C10"
 CASE_TIMEOUT = 300
 RULE = ("cases = the full configuration matrix {--to_bin,--to_cas,--to_dsk} x {append, no append} x pre-existing target {absent, empty, "
-        "cassette image, disk image, raw binary, arbitrary bytes, cassette image >= 161280 bytes (three fillings of the bytes a disk "
+        "cassette image, disk image with files, formatted disk image without files, raw binary, arbitrary bytes, cassette image >= 161280 bytes (three fillings of the bytes a disk "
         "parser looks at), 161280 arbitrary bytes} x {assembler.py, file_util.py}, exhaustive in both tiers, plus random sequences of "
         "2-4 such invocations on one target. Each invocation runs the real CLI in-process (runpy) under the M6 audit hook with "
         "content hashes before/after; thorough re-runs every cell as a real subprocess under strace and compares the syscall-level "
@@ -20,7 +20,7 @@ ASSUMPTIONS = ["kind of existing content is decided by the reference parsers: di
                "well-formed file and nothing malformed; raw = everything else",
                "'told why' = the tool printed something and did not print its success message"]
 SWITCH_KIND = {"--to_bin": "raw", "--to_cas": "cassette", "--to_dsk": "disk"}
-PRES = ["absent", "empty", "cassette", "disk", "rawbin", "arbitrary", "bigcas-zero", "bigcas-text", "alignedcas-zero", "arb161k"]
+PRES = ["absent", "empty", "cassette", "disk", "blankdisk", "rawbin", "arbitrary", "bigcas-zero", "bigcas-text", "alignedcas-zero", "arb161k"]
 ASM = " NAM NEWPRG\n ORG $2000\nSTART LDA #1\n STA $400\n RTS\n"
 ASM_IMAGE = bytes([0x86, 0x01, 0xB7, 0x04, 0x00, 0x39])
 NEW_FILE = {"name": "NEWPRG", "type": 2, "dtype": 0, "load": 0x2000, "exec": 0x2000, "data": ASM_IMAGE}
@@ -43,6 +43,8 @@ def pre_content(kind, r):
         RD.write_file(img, dict(name=b"OLD1", ext=b"BIN", ftype=2, ascii=0, load=0x1000, exec=0x1000, data=b"abc"), [3])
         RD.write_file(img, dict(name=b"OLD2", ext=b"BIN", ftype=2, ascii=0, load=0x1100, exec=0x1100, data=bytes(3000)), [40, 7])
         return bytes(img)
+    if kind == "blankdisk":
+        return bytes(RD.blank())          # a formatted disk that holds no file yet is still a disk image
     if kind == "rawbin":
         return bytes([0x86, 0x01, 0x39, 0x12, 0x12])
     if kind == "arbitrary":
